@@ -16,6 +16,9 @@
 //         swaprec:<size>:<a>:<b> | replay:<size>:<from>:<to>   records of <size> bytes swapped / replayed
 //         macshift:<size>:<row>:<word>:<delta>    MAC-consistent change of a shuffle row (delta in the word, key*delta in the tag)
 //       response: `abort-or-same abort:<kind>` | `abort-or-same same` | `changed <histogram>` | `untouched`
+//   c02.extraclasses <shards> <pad> <records>
+//       honest run; response: the gate classes this configuration has on top of the basic one-shard configuration,
+//       `<class>:<sending helpers>` `,`-separated (the last layers of the query: suite c02_lastlayer)
 use std::sync::{Arc, Mutex};
 
 use futures::future::try_join3;
@@ -470,6 +473,22 @@ pub fn exec(req: &str) -> String {
                 Outcome::Inconsistent => "abort:inconsistent".into(),
             }
         }
+        "c02.extraclasses" => {
+            // the gate classes (with the senders seen) that this configuration has on top of the basic one
+            let m = extra_classes(t[1].parse().unwrap(), t[2], t[3]);
+            if m.is_empty() {
+                return "-".into();
+            }
+            m.iter()
+                .map(|(class, members)| {
+                    let mut s: Vec<u8> = members.iter().map(|c| c.1).collect();
+                    s.sort_unstable();
+                    s.dedup();
+                    format!("{class}:{}", s.iter().map(|x| x.to_string()).collect::<String>())
+                })
+                .collect::<Vec<_>>()
+                .join(",")
+        }
         "c02.tamper" => {
             let shards: usize = t[1].parse().unwrap();
             let seed = seed_of(t[1], t[2], t[3]);
@@ -761,6 +780,85 @@ fn verif_c02_tamper() {
             gen_tamper(rng, thorough, 2, "0", &big, Some(if thorough { (60, 60) } else { (2, 4) }), &mut out);
             if thorough {
                 gen_tamper(rng, thorough, 1, "1", RECS, None, &mut out);
+            }
+            out
+        },
+        exec,
+    );
+}
+
+/// ten attributed pairs with the same breakdown key (> the aggregation proof chunk of 8 rows in test builds, so the
+/// breakdown aggregation of a single shard needs a second level: a saturating addition of two 32-bit intermediate
+/// histograms) plus a few other rows
+pub const RECS_DEEP: &str = "i:101:5,c:101:1,i:102:5,c:102:2,i:103:5,c:103:3,i:104:5,c:104:1,i:105:5,c:105:2,i:106:5,c:106:3,i:107:5,c:107:1,i:108:5,c:108:2,i:109:5,c:109:3,i:110:5,c:110:1,i:111:7,c:111:6,c:112:4,i:113:9";
+
+/// gate classes of a configuration that the basic one-shard configuration (`RECS`) does not have
+fn extra_classes(shards: usize, pad: &str, recs: &str) -> std::collections::BTreeMap<String, Vec<Chan>> {
+    let base: std::collections::BTreeSet<String> =
+        list_channels(1, "0", RECS).iter().filter(|c| c.4 > 0).map(|c| normalize_gate(&c.0)).collect();
+    let mut classes: std::collections::BTreeMap<String, Vec<Chan>> = Default::default();
+    for c in list_channels(shards, pad, recs) {
+        let class = normalize_gate(&c.0);
+        if c.4 > 0 && !base.contains(&class) {
+            classes.entry(class).or_default().push(c);
+        }
+    }
+    classes
+}
+
+/// The LAST layers of a query (b14, seed C02c): gate classes that exist only with two shards (the `finalize` step:
+/// the leader shard merges the other shards' histograms with a saturating addition) or only when the breakdown
+/// aggregation of a shard needs more than one proof chunk (`…/saturating_add/{add,select}`). Nothing is computed after
+/// these gates in a query without DP noise, so a message altered here is caught by the proof of exactly this step or
+/// not at all. Deterministically: for every such class that carries multiplication traffic (`…/bit#`) one case per
+/// sending helper, on the last addition of the class (greatest gate name) — every lane of these 256-lane messages is a
+/// histogram bucket; for the other classes (the proof messages of the step's validator) one case.
+fn gen_last_layers(rng: &mut Rng, thorough: bool, shards: usize, pad: &str, recs: &str, out: &mut Vec<String>) {
+    let head = format!("c02.tamper {shards} {pad} {recs}");
+    out.push(format!("c02.extraclasses {shards} {pad} {recs}"));
+    let mut first = true;
+    for (class, members) in extra_classes(shards, pad, recs) {
+        if !class.ends_with("/bit#") {
+            let c = rng.pick(&members).clone();
+            let n = c.4;
+            out.push(format!("{head} H{} {}", c.1, act(&c, &blind_pattern(rng, 4, n))));
+            continue;
+        }
+        // the last addition of the class: greatest parent gate
+        let parent = |g: &str| g.rsplit_once('/').map_or(String::new(), |x| x.0.to_string());
+        let last = members.iter().map(|c| parent(&c.0)).max().unwrap();
+        for sender in 1..=3u8 {
+            let cand: Vec<&Chan> = members.iter().filter(|c| c.1 == sender && parent(&c.0) == last).collect();
+            if cand.is_empty() {
+                continue;
+            }
+            for k in 0..(if thorough { 6 } else { 1 }) {
+                let c: Chan = (*rng.pick(&cand)).clone();
+                // the first case is the smallest change there is: bit 0 of the first byte (bucket 0)
+                let pat = if first { "flip:0:0".to_string() } else if k % 2 == 0 {
+                    format!("flip:{}:{}", rng.usize_below(c.4), rng.below(8))
+                } else {
+                    format!("add:{}:{}", rng.usize_below(c.4), 1 + rng.below(255))
+                };
+                first = false;
+                out.push(format!("{head} H{} {}", c.1, act(&c, &pat)));
+            }
+        }
+    }
+}
+
+#[test]
+fn verif_c02_lastlayer() {
+    run_suite(
+        "c02_lastlayer",
+        |rng, thorough| {
+            let mut out = vec![];
+            gen_last_layers(rng, thorough, 1, "0", RECS_DEEP, &mut out);
+            // the finalize step does not depend on the number of rows: a small query keeps the two-shard runs short
+            gen_last_layers(rng, thorough, 2, "0", RECS_DEEP, &mut out);
+            if thorough {
+                let big = big_records(rng);
+                gen_last_layers(rng, thorough, 2, "0", &big, &mut out);
             }
             out
         },
